@@ -176,7 +176,25 @@ func coqBytesOrZeros(b []byte) string {
 			return fmt.Sprintf("(zeros %d)", len(b))
 		}
 	}
-	return vh.CoqBytes(b)
+	return chunked(len(b), func(lo, hi int) string { return vh.CoqBytes(b[lo:hi]) })
+}
+
+// chunked writes a long Coq list as ([..] ++ [..] ++ ...) so that no literal has more than 400 elements
+// (very long list literals overflow coqc's stack).
+func chunked(n int, part func(lo, hi int) string) string {
+	const c = 400
+	if n <= c {
+		return part(0, n)
+	}
+	var ps []string
+	for lo := 0; lo < n; lo += c {
+		hi := lo + c
+		if hi > n {
+			hi = n
+		}
+		ps = append(ps, part(lo, hi))
+	}
+	return "(" + strings.Join(ps, " ++ ") + ")"
 }
 
 func coqMsg(b []byte, nh, tw, fl uint32) string {
@@ -193,7 +211,7 @@ func coqFin(m *wire.MsgFilterLoad) string {
 			nz = append(nz, fmt.Sprintf("(%d,%d)", i, b))
 		}
 	}
-	return fmt.Sprintf("(Some (%d, %s, %d, %d, %d))", len(m.Filter), vh.CoqList(nz), m.HashFuncs, m.Tweak, uint32(m.Flags))
+	return fmt.Sprintf("(Some (%d, %s, %d, %d, %d))", len(m.Filter), chunked(len(nz), func(lo, hi int) string { return vh.CoqList(nz[lo:hi]) }), m.HashFuncs, m.Tweak, uint32(m.Flags))
 }
 
 func eqBytes(a, b []byte) bool {
@@ -755,7 +773,6 @@ func main() {
 	rep.Cases = cases.Len()
 	vh.Must(rep.Write(cfg))
 	fmt.Printf("c09: %d executions, %d distinct non-trivial, %d cases, %d violations\n", rep.Evaluations, rep.Nontrivial, cases.Len(), len(rep.Violations))
-	_ = strings.Join
 }
 
 func mustHex(s string) []byte {
